@@ -48,6 +48,19 @@ def sec_addgrad():
     tree, _ = parse('add_gradients.py')
     fn = func(tree, 'add_gradients')
     src = unparse(strip_doc(fn))
+    # signature: the model takes the system as an explicit argument and resolves the limit overrides itself; the
+    # code must take `system=None` (resolved to the CURRENT Opts.default inside the body on every call) and
+    # `max_grad=0`, `max_slew=0`.  A default bound at import time (`system=Opts.default`), extra parameters,
+    # *args/**kwargs or keyword-only parameters are outside the model: fail closed.
+    a = fn.args
+    names = [x.arg for x in a.args]
+    defaults = [unparse(d) for d in a.defaults]
+    if names != ['grads', 'max_grad', 'max_slew', 'system'] or defaults != ['0', '0', 'None'] \
+            or a.vararg or a.kwarg or a.kwonlyargs or getattr(a, 'posonlyargs', []):
+        raise TranslateError('add_gradients: signature changed: (%s) defaults %s' % (', '.join(names), defaults))
+    first = [unparse(n) for n in strip_doc(fn)[:3]] if isinstance(strip_doc(fn), list) else []
+    if not first or first[0] != 'if system is None:\n    system = Opts.default':
+        raise TranslateError('add_gradients: `if system is None: system = Opts.default` must be the first statement')
     mt = _calls(fn, 'make_trapezoid')
     me = _calls(fn, 'make_extended_trapezoid')
     ma = _calls(fn, 'make_arbitrary_grad')
@@ -123,6 +136,9 @@ def sec_addgrad():
     if exact == toler:
         raise TranslateError('add_gradients: selection of first/last contributors changed')
     tol = Fraction(0) if exact else eps
+    for nm, c in (('make_trapezoid', mt[0]), ('make_extended_trapezoid', me[0]), ('make_arbitrary_grad', ma[0])):
+        if _kw(c, 'system') != 'system':
+            raise TranslateError('add_gradients: %s is not called with system=system' % nm)
     pt, pe, pa = _passes(mt[0]), _passes(me[0]), _passes(ma[0])
     CONSTS['addgrad'] = {'eps': eps, 'trap_passes_limits': pt, 'ext_passes_limits': pe, 'arb_passes_limits': pa, 'startend_tol': tol}
     b = lambda x: 'true' if x else 'false'
